@@ -63,10 +63,14 @@ Definition dh_update (ds : list ddesc) (st : nstate) (old : option dobj) (o : do
 Definition dbound (ds : list ddesc) (uid : Z) (term : bool) : dobj :=
   let d := ddesc_of ds uid in mkDO uid (dd_node d) term (dd_groups d).
 Definition dpending (uid : Z) : dobj := mkDO uid 0 false [].
+(* life cycle: 0 pending, 1 assumed, 2 bound, 3 deleted, 4 terminated (phase Succeeded/Failed),
+   6 terminating (bound, deletionTimestamp set, still running and holding its devices: the handlers
+   do not look at the deletion timestamp) *)
+Definition is_bound (s : Z) : bool := (s =? 2) || (s =? 6).
 Definition dobj_of (ds : list ddesc) (life : Z -> Z) (uid : Z) : option dobj :=
   let s := life uid in
   if s =? 3 then None
-  else if (s =? 2) || (s =? 4) then Some (dbound ds uid (s =? 4))
+  else if is_bound s || (s =? 4) then Some (dbound ds uid (s =? 4))
   else Some (dpending uid).
 
 Record dlive := mkDL { dl_st : nstate; dl_life : Z -> Z }.
@@ -82,12 +86,15 @@ Definition dlive_step (ds : list ddesc) (l : dlive) (op : Z * Z) : dlive :=
   else if (k =? 2) && (s =? 1) then mkDL (dev_del st (dd_node d) uid (dd_groups d)) (upd1 (dl_life l) uid 0)
   else if (k =? 3) && (s =? 1) then
     mkDL (dh_update ds st (Some (dpending uid)) (dbound ds uid false)) (upd1 (dl_life l) uid 2)
-  else if (k =? 4) && ((s =? 2) || (s =? 4)) then
+  else if (k =? 4) && (is_bound s || (s =? 4)) then
     mkDL (dh_delete st (dbound ds uid (s =? 4))) (upd1 (dl_life l) uid 3)
-  else if (k =? 5) && (s =? 2) then
+  else if (k =? 5) && is_bound s then
     mkDL (dh_update ds st (Some (dbound ds uid false)) (dbound ds uid false)) (dl_life l)
-  else if (k =? 7) && (s =? 2) then
+  else if (k =? 7) && is_bound s then
     mkDL (dh_update ds st (Some (dbound ds uid false)) (dbound ds uid true)) (upd1 (dl_life l) uid 4)
+  else if (k =? 10) && (s =? 2) then
+    (* informer update: deletionTimestamp set (graceful termination starts) *)
+    mkDL (dh_update ds st (Some (dbound ds uid false)) (dbound ds uid false)) (upd1 (dl_life l) uid 6)
   else l.
 
 (* fresh scheduler: 1 Add 2 Update(obj,obj) 3 Update(pending,obj); 4 = the Device object of a node
@@ -135,12 +142,29 @@ Definition dsnap_node (c : dcase) (st : nstate) (node : Z) : dsnap :=
 Definition dsnapshot (c : dcase) (st : nstate) : list dsnap :=
   map (dsnap_node c st) (zrange 1 (Z.to_nat (d_nodes c))).
 
-Fixpoint drun_ops (c : dcase) (l : dlive) (ops : list (Z * Z)) : list (list dsnap * list dsnap) :=
+(* The reserved device amount of a Reservation (kind 1), feature gate ResizePod: what ResizePod makes
+   the live reserve pod hold and what PreBindReservation persists in the resize-allocatable annotation
+   are both the sum of the ALLOCATED per-minor resources: (gpu-core, gpu-memory-ratio, rdma).
+   Per uid: persisted? a b c  held? a b c. *)
+Definition group_sum (gs : list (Z * list (Z * (Z * Z)))) (t : Z) : Z * Z :=
+  fold_right (fun g acc => if fst g =? t
+                           then fold_right (fun e acc' => pair_add (snd e) acc') acc (snd g) else acc) (0, 0) gs.
+Definition reserved_amounts (d : ddesc) : list Z :=
+  [fst (group_sum (dd_groups d) 1); snd (group_sum (dd_groups d) 1); fst (group_sum (dd_groups d) 2)].
+Definition dpersist (ds : list ddesc) (life : Z -> Z) : list Z :=
+  flat_map (fun u => let d := ddesc_of ds u in let s := life u in
+              let rsv := (dd_kind d =? 1) && negb (is_nil (dd_groups d)) in
+              (if rsv && (is_bound s || (s =? 4)) then 1 :: reserved_amounts d else [0; 0; 0; 0])
+              ++ (if rsv && ((s =? 1) || is_bound s || (s =? 4)) then 1 :: reserved_amounts d else [0; 0; 0; 0]))
+           (zrange 1 (length ds)).
+
+Fixpoint drun_ops (c : dcase) (l : dlive) (ops : list (Z * Z)) : list ((list dsnap * list dsnap) * list Z) :=
   match ops with
   | [] => []
   | op :: t =>
     let l' := dlive_step (d_descs c) l op in
-    (dsnapshot c (dl_st l'), dsnapshot c (dreplay (d_descs c) (dl_life l') (d_script c))) :: drun_ops c l' t
+    ((dsnapshot c (dl_st l'), dsnapshot c (dreplay (d_descs c) (dl_life l') (d_script c))),
+     dpersist (d_descs c) (dl_life l')) :: drun_ops c l' t
   end.
 Definition drun (c : dcase) := drun_ops c dlive_init (d_ops c).
 Fixpoint dlives (c : dcase) (l : dlive) (ops : list (Z * Z)) : list (Z -> Z) :=
@@ -154,5 +178,5 @@ Definition enc_aset (o : option (list (Z * (Z * Z)))) : list Z :=
 Definition enc_dsnap (s : dsnap) : list Z :=
   flat_map (fun e => [fst (fst e); snd (fst e); fst (snd e); snd (snd e)]) (ds_devs s)
   ++ flat_map enc_aset (ds_aset s) ++ ds_vfs s.
-Definition enc_drun (r : list (list dsnap * list dsnap)) : list Z :=
-  flat_map (fun p => flat_map enc_dsnap (fst p) ++ flat_map enc_dsnap (snd p)) r.
+Definition enc_drun (r : list ((list dsnap * list dsnap) * list Z)) : list Z :=
+  flat_map (fun p => flat_map enc_dsnap (fst (fst p)) ++ flat_map enc_dsnap (snd (fst p)) ++ snd p) r.
